@@ -111,4 +111,25 @@ def repNorm (S : Schema) : Nat → Nat → Val → Val
 /-- same message value, possibly represented differently -/
 def Equiv (S : Schema) (fuel i : Nat) (v w : Val) : Prop := repNorm S fuel i v = repNorm S fuel i w
 
+/-- erase unknown fields at every level (what DiscardUnknown must produce) -/
+def eraseElem (child : Nat → Val → Val) (e : Elem) (v : Val) : Val :=
+  match e with
+  | .scalar _ => v
+  | .message i => if v.isNone then v else child i v
+
+def eraseSlot (child : Nat → Val → Val) (f : FieldDesc) (v : Val) : Val :=
+  match f.shape, v with
+  | .singular, v => eraseElem child f.elem v
+  | .repeated _, .list nn es => .list nn (es.map (eraseElem child f.elem))
+  | .map _, .map nn es => .map nn (es.map (fun en => .entry en.key (eraseElem child f.elem en.value)))
+  | .oneof _, .one x => .one (eraseElem child f.elem x)
+  | _, v => v
+
+def eraseUnknown (S : Schema) : Nat → Nat → Val → Val
+  | 0, _, v => v
+  | fuel+1, i, v =>
+    match v with
+    | .msg slots _ => .msg (((S.msg i).fields.zip slots).map (fun p => eraseSlot (eraseUnknown S fuel) p.1 p.2)) []
+    | x => x
+
 end Pulsar
